@@ -44,7 +44,13 @@ func implPruneRun(line string) string {
 	}
 	root := filepath.Join(c16dir, "prune-store")
 	os.RemoveAll(root)
-	os.MkdirAll(root, 0755)
+	os.RemoveAll(root + "-real")
+	if a["link"] == "1" { // the store path is a symbolic link to the directory (a store on another volume, say)
+		os.MkdirAll(root+"-real", 0755)
+		os.Symlink(root+"-real", root)
+	} else {
+		os.MkdirAll(root, 0755)
+	}
 	if a["files"] != "" {
 		for _, f := range strings.Split(a["files"], ";") {
 			p := strings.Split(f, "/")
@@ -136,7 +142,11 @@ func implPruneRun(line string) string {
 	}
 	return guard(func() string {
 		err := st.Prune(context.Background(), keep)
-		rem := listStore(root)
+		lroot := root
+		if a["link"] == "1" {
+			lroot = root + "-real"
+		}
+		rem := listStore(lroot)
 		sort.Strings(rem)
 		if err != nil {
 			return "failed " + strings.Join(rem, ";")
@@ -276,6 +286,9 @@ func runC16(cfg Config) {
 		if it%3 == 0 { // the same directory pruned through the SFTP store (1 or 2 pooled connections)
 			backend = "sftp"
 			line += fmt.Sprintf(" backend=sftp n=%d", 1+rng.Intn(2))
+		}
+		if it%3 == 2 && it%2 == 0 { // the local store reached through a symbolic link
+			line += " link=1"
 		}
 		if it%3 == 1 { // the same files as objects of an S3 bucket
 			backend = "s3"
